@@ -367,21 +367,58 @@ func applyReal(pj *simdjson.ParsedJson, roots []*rj.Node, op editOp) (apiErr err
 	if err != nil {
 		return nil, nil, err
 	}
+	// A rejected Set* "changes nothing": that includes the iterator the caller holds, which must expose the same value
+	// and remain usable for Object()/Array() afterwards.
+	set := func(call func() error) (error, []string, error) {
+		small := len(pj.Tape) < 5000
+		ty := it.Type()
+		var before []byte
+		var berr error
+		if small {
+			pre := it
+			before, berr = pre.MarshalJSON()
+		}
+		apiErr := call()
+		if apiErr == nil {
+			return nil, nil, nil
+		}
+		if it.Type() != ty {
+			return apiErr, nil, fmt.Errorf("the rejected call changed the type reported by the iterator it was made on from %v to %v", ty, it.Type())
+		}
+		if small {
+			post := it
+			after, aerr := post.MarshalJSON()
+			if (berr == nil) != (aerr == nil) || !bytes.Equal(before, after) {
+				return apiErr, nil, fmt.Errorf("the rejected call changed what the iterator it was made on marshals: before %q (%v), after %q (%v)", clip(before), berr, clip(after), aerr)
+			}
+		}
+		switch ty {
+		case simdjson.TypeObject:
+			if _, err := it.Object(nil); err != nil {
+				return apiErr, nil, fmt.Errorf("after the rejected call Object() fails on the same iterator: %v", err)
+			}
+		case simdjson.TypeArray:
+			if _, err := it.Array(nil); err != nil {
+				return apiErr, nil, fmt.Errorf("after the rejected call Array() fails on the same iterator: %v", err)
+			}
+		}
+		return apiErr, nil, nil
+	}
 	switch op.Kind {
 	case "SetNull":
-		return it.SetNull(), nil, nil
+		return set(it.SetNull)
 	case "SetBool":
-		return it.SetBool(op.B), nil, nil
+		return set(func() error { return it.SetBool(op.B) })
 	case "SetInt":
-		return it.SetInt(op.I), nil, nil
+		return set(func() error { return it.SetInt(op.I) })
 	case "SetUInt":
-		return it.SetUInt(op.U), nil, nil
+		return set(func() error { return it.SetUInt(op.U) })
 	case "SetFloat":
-		return it.SetFloat(math.Float64frombits(op.F)), nil, nil
+		return set(func() error { return it.SetFloat(math.Float64frombits(op.F)) })
 	case "SetString":
-		return it.SetString(string(op.S)), nil, nil
+		return set(func() error { return it.SetString(string(op.S)) })
 	case "SetStringBytes":
-		return it.SetStringBytes(op.S), nil, nil
+		return set(func() error { return it.SetStringBytes(op.S) })
 	case "DelArr":
 		arr, err := it.Array(nil)
 		if err != nil {
